@@ -710,8 +710,47 @@ fn gen_wday_offset(ch: &mut Choices, out: &mut String) -> WeekDayOffset {
 }
 
 fn gen_monthday_range(ch: &mut Choices, cfg: &Cfg, out: &mut String) -> MonthdayRange {
-    let w = if cfg.canonical { [22, 16, 0, 0, 0, 0, 0, 2] } else { [22, 16, 16, 8, 28, 10, 9, 5] };
+    let w = if cfg.canonical { [22, 16, 0, 0, 0, 0, 0, 2, 0] } else { [22, 16, 16, 8, 28, 10, 9, 5, 4] };
     match ch.weighted(&w) {
+        // the same date on both ends (Easter or a fixed date, year-less or with the same year), told apart by their
+        // offsets only: the end may fall before the start, or a year later (S-C06-m prints `Y easter..-Y easter..`
+        // without the second year)
+        8 => {
+            let year = if ch.chance(60) { Some(gen_year(ch, cfg)) } else { None };
+            let easter = ch.chance(55);
+            let (month, day) = (ch.pick(&MONTHS), gen_daynum(ch).min(28));
+            let mut side = |ch: &mut Choices, out: &mut String| -> (Date, DateOffset) {
+                if let Some(y) = year {
+                    out.push_str(&y.to_string());
+                    out.push(' ');
+                }
+                let date = if easter {
+                    out.push_str("easter");
+                    Date::Easter { year }
+                } else {
+                    out.push_str(month_str(month));
+                    out.push(' ');
+                    out.push_str(&day.to_string());
+                    Date::Fixed { year, month, day }
+                };
+                let offset = match ch.weighted(&[25, 35, 25, 15]) {
+                    0 => DateOffset::default(),
+                    1 => DateOffset { wday_offset: gen_wday_offset(ch, out), day_offset: 0 },
+                    2 => DateOffset { wday_offset: WeekDayOffset::None, day_offset: gen_day_offset(ch, cfg, out) },
+                    _ => {
+                        let n = if cfg.max_day_offset >= 30 { 300 + i64::from(ch.draw(130)) } else { 1 + i64::from(ch.draw(9)) };
+                        let sign = if ch.chance(50) { 1 } else { -1 };
+                        out.push_str(&format!(" {}{n} days", if sign > 0 { '+' } else { '-' }));
+                        DateOffset { wday_offset: WeekDayOffset::None, day_offset: sign * n }
+                    }
+                };
+                (date, offset)
+            };
+            let start = side(ch, out);
+            out.push('-');
+            let end = side(ch, out);
+            MonthdayRange::Date { start, end }
+        }
         // date range aligned on months (`Jan 01-Feb 28`, `Mar 1-Apr 30`): almost a month range —
         // the difference is the leap day, or the days after an end that is not the last one
         7 => {
